@@ -113,6 +113,9 @@ type FnCtx struct {
 	triggers []*Term
 	factTag     []byte // origin of fact i: 0 code / library model, 1 assumed contract clause (invariant, requires), 2 specification lemma or unfolding
 	curTag      byte
+	curTopFrame *Frame       // frame of the function under verification
+	rawDerived  map[int]bool // C05: texts computed from Map values by functions other than escapeChars
+	escaped     map[int]bool // C05: terms returned by escapeChars
 	qdepth      int // nesting depth of contract quantifiers being evaluated (names their bound variables)
 	backCovers  []*Obligation // vacuity guards for loop back edges
 	factGuarded []bool // fact i is guarded by the path condition of the point it was generated at
